@@ -53,6 +53,12 @@ func mergeMap(vs []any) (any, error) {
 
 // the caller should ensure len(vs) > 1
 func mergeValues(vs []any) (any, error) {
+	for _, v := range vs {
+		if v == nil {
+			// a nil value of an interface-typed output: reflect.ValueOf(nil).Type() would panic
+			return nil, fmt.Errorf("(mergeValues) cannot merge a nil value with %d other value(s)", len(vs)-1)
+		}
+	}
 	v0 := reflect.ValueOf(vs[0])
 	t0 := v0.Type()
 	k0 := t0.Kind()
